@@ -279,3 +279,16 @@ func ReplayMain(harnesses map[string]func()) {
 	fmt.Printf("VERIF-ALLOC %d\n", ms1.TotalAlloc-ms0.TotalAlloc)
 	fmt.Println("VERIF-END")
 }
+
+// Loop-step mode (symbolic runs only): LoopHavoc names a header variable of the loop-th
+// loop of function fn and the value it has on first arrival; LoopStep runs f and returns
+// false if it was cut at the back-edge (LoopPost* then give the header variables' next
+// values), true if f returned. Natively LoopStep just runs f.
+func LoopHavoc(fn string, loop int, name string, v interface{}) {}
+func LoopStep(f func()) bool                                  { f(); return true }
+func LoopPostInt(name string) int                             { return 0 }
+func LoopPostInt64(name string) int64                         { return 0 }
+func LoopPostUint64(name string) uint64                       { return 0 }
+func LoopPostInt32(name string) int32                         { return 0 }
+func LoopPostBool(name string) bool                           { return false }
+func LoopPostIsNil(name string) bool                          { return false }
